@@ -74,10 +74,23 @@ def shipped_nets(dtype, channels, rng):
         ("ConvBNNet", sflax.ConvBNNet, dict(depth=2, channels=channels, num_filters=2)),
         ("UNet", sflax.UNet, dict(depth=2, channels=channels, num_filters=2)),
     ]
+    if channels == 1:
+        # the two architectures that wrap a forward operator (scico/flax/inverse.py); the operator fixes H x W = 4 x 6.
+        # MoDLNet maps the operator over the batch axis (operator on one (H,W,C) item), ODPNet applies it to the whole
+        # batch (operator on the (1,H,W,C) array: a batch of two is rejected by the network itself)
+        from scico import linop
+
+        dg = np.linspace(0.5, 1.5, 24)
+        specs += [
+            ("MoDLNet", sflax.MoDLNet, dict(operator=linop.Diagonal(jnp.asarray(dg.reshape(4, 6, 1), dtype=dtype)), depth=1, channels=1,
+                                           num_filters=2, block_depth=2, cg_iter=3)),
+            ("ODPNet", sflax.ODPNet, dict(operator=linop.Diagonal(jnp.asarray(dg.reshape(1, 4, 6, 1), dtype=dtype)), depth=1, channels=1,
+                                         num_filters=2, block_depth=2)),
+        ]
     for name, cls, kw in specs:
         m = cls(dtype=dtype, **kw)
         key = jax.random.PRNGKey(int(rng.integers(0, 2**31 - 1)))
-        v = m.init({"params": key}, jnp.ones((1, 4, 4, channels), dtype), train=False)
+        v = m.init({"params": key}, jnp.ones((1, 4, 6, channels) if name in ("MoDLNet", "ODPNet") else (1, 4, 4, channels), dtype), train=False)
         v = jax.tree_util.tree_map(lambda a: a, dict(v))
         if "batch_stats" in v:
             leaves, treedef = jax.tree_util.tree_flatten(v["batch_stats"])
